@@ -8,6 +8,8 @@ writes followed by a re-run, ENOSPC, read errors, short reads/writes.
 """
 from __future__ import annotations
 
+import os
+
 import json
 
 from .. import cborr, cose, gen, suitwalk, world
@@ -18,6 +20,7 @@ from ..runner import Machine, violation
 HASHES = ["sha-256", "sha-384", "sha-512", "shake128", "shake256"]
 SIZES = [0, 1, 15, 16, 17, 300, 4096, 65537]
 KIDS = [0, 1, 23, 24, 255, 256, 65535, 65536, 0x7FFFFFE0, 0xFFFFFFFF]
+NUMERIC_DIRS = [("1.10", "1.1"), ("1e3", "1000.0"), ("null", "None")]
 FILES = ["plain_text_digest.bin", "plain_text_size.txt", "suit_encryption_info.bin", "encrypted_content.bin"]
 PROTECTED = bytes.fromhex("a10103")
 
@@ -204,6 +207,13 @@ class Encrypt(Machine):
                     for kd in ("keys", "keys2"):
                         host.write(f"{kd}/{decoy}", world.blob(host.seed, f"decoy-{kd}-{name}", 32))
                     model["_extra"]["dotted_key_names"] = model["_extra"].get("dotted_key_names", 0) + 1
+            # key directories whose *names* read as JSON values (per-release directories "1.10", "1e3", ...), used through
+            # a relative --context; beside each sits the directory a value round-tripped through a JSON loader would name
+            # ("1.1", "1000.0", "None"), holding other keys under the same names
+            for real, decoy in NUMERIC_DIRS:
+                for name in op["keys"]:
+                    host.write(f"{real}/{name}.bin", model["keys"][name])
+                    host.write(f"{decoy}/{name}.bin", world.blob(host.seed, f"aeskey-decoy-{decoy}-{name}", 32))
             for name, size in op["fws"]:
                 model["fws"][name] = world.blob(host.seed, name, size)
                 host.write(f"{name}.bin", model["fws"][name])
@@ -317,12 +327,23 @@ class Encrypt(Machine):
         ctx = self._context(host, op)
         entry = op["entry"]
         if entry in ("cli", "main"):
+            relnum = op["i"] % 5 == 2 and not op.get("kd") and op.get("ctx", "path") == "path"
+            if relnum:
+                ctx = NUMERIC_DIRS[op["i"] % len(NUMERIC_DIRS)][0]  # relative to the project directory
+                model["_extra"]["relative_context_reads_as_json"] = model["_extra"].get("relative_context_reads_as_json", 0) + 1
             argv = ["encrypt", "encrypt-and-generate", "--firmware", fw_path, "--key-name", op["key"],
                     "--key-id", self.num(op["kid"], (op["i"], "k")), "--context", ctx,
                     "--output-dir", host.path(op["out"]), "--hash-alg", op["hash"],
                     "--kms-script", world.KMS_SCRIPT, "--encrypt-script", world.ENCRYPT_SCRIPT]
             argv = self.drop_defaults(argv, {"--hash-alg": "sha-256"}, op["i"])
-            return host.cli(argv, kind="encrypt", faults=faults, full_main=(entry == "main"))
+            prev = os.getcwd()
+            if relnum:
+                os.chdir(host.root)
+            try:
+                return host.cli(argv, kind="encrypt", faults=faults, full_main=(entry == "main"))
+            finally:
+                if relnum:
+                    os.chdir(prev)
         plaintext = model["fws"][op["fw"]]
         if entry == "kms":
             return host.tool(lambda: self._kms_direct(model, plaintext, op["key"], op["kid"], ctx, op["hash"]),
@@ -648,7 +669,7 @@ class Encrypt(Machine):
     def _create_with_info(self, host, model, op, faults, prop):
         ex = model["_extra"]
         st = model["dirs"].get(op["dir"])
-        if prop != "C06" or not st:
+        if prop not in ("C06", "C14") or not st:
             model["_abstract"] = "skip"
             return []
         d = op["dir"]
@@ -680,6 +701,20 @@ class Encrypt(Machine):
         except cborr.CborError as e:
             return [violation(prop, "create-output-unreadable", op["i"], repr(e))]
         got = {pid: node for pid, node in ps}
+        if prop == "C14":
+            # the envelope is where the IV is finally published: it must be the IV of the encryption whose artifacts the
+            # directory holds now, not that of an earlier encryption into the same directory
+            if 19 not in got or got[19].raw != info:
+                try:
+                    iv_pub = read_info(got[19].raw)[0].hex() if 19 in got else None
+                except Exception:  # noqa: BLE001
+                    iv_pub = "unreadable"
+                return [violation("C14", "published-iv-not-used", op["i"],
+                                  f"the envelope created from {d}/suit_encryption_info.bin publishes IV {iv_pub}, the ciphertext in "
+                                  f"that directory was produced with IV {read_info(info)[0].hex()}")]
+            model["_abstract"] = ("create_with_info", op["form"])
+            model["_nontrivial"] = True
+            return []
         if 19 not in got or got[19].raw != info:
             vs.append(violation("C06", "create-embeds-info-unchanged", op["i"],
                                 f"parameter 19 is {got[19].raw.hex()[:120] if 19 in got else None}, info file is {info.hex()[:120]}"))
